@@ -13,7 +13,14 @@ ASSUMPTIONS = [
     "strings and stream data of ENCRYPTED outputs are compared structurally only in this check (the reference decryptor belongs to C05)",
     "page content streams rewritten by --qdf/--normalize-content/--coalesce-contents are compared by C16, not here",
     "corpus inputs serve as ground truth only when the strict reader accepts them; otherwise they are skipped (counted)",
+    "container model (Obj/C01Container.v): zlib is a hypothesis of the round-trip theorem and File/Inflate.v in the extracted instance; data handed to a Flate stage is a complete zlib stream; DCT at decode level all, user-registered filters and the max-stream-filters / Pl_Flate memory limits are outside the model",
 ]
+
+CONT_CONFIGS = [["--object-streams=generate"], ["--object-streams=preserve", "--stream-data=uncompress"], ["--qdf"], ["--qdf", "--object-streams=preserve"],
+                ["--linearize"], ["--linearize", "--object-streams=generate"], ["--decode-level=none", "--compress-streams=n"],
+                ["--decode-level=specialized", "--recompress-flate"], ["--stream-data=preserve", "--newline-before-endstream", "--preserve-unreferenced"],
+                ["--min-version=1.7", "--object-streams=preserve"], ["--decode-level=all", "--object-streams=generate"],
+                ["--encrypt", "--user-password=u", "--owner-password=o", "--bits=256", "--"]]
 
 CONTENT_REWRITING = ("--qdf", "--normalize-content=y", "--coalesce-contents")
 
@@ -35,6 +42,23 @@ def print_children(objs, v, out):
         drop = (b"Length",) if getattr(v, "_keep_params", True) else (b"Length", b"Filter", b"DecodeParms")
         d = {k: x for k, x in v.d.items() if k not in drop}
         print_children(objs, d, out)
+
+
+def invalid_decode_parms(objs):
+    """does the document hold a stream whose decode parameters are outside the ranges of ISO 32000-1 7.4.4.4 (the shared generator
+    makes such streams on purpose: they cannot be decoded and must be carried over unchanged)?  Such a file is not a valid input in
+    the sense of 'a valid input is never refused': a warning about that stream is legitimate"""
+    def bad(pm):
+        pm = dociso.resolve(objs, pm)
+        if isinstance(pm, list):
+            return any(bad(x) for x in pm)
+        if not isinstance(pm, dict):
+            return False
+        g = lambda k, d: dociso.resolve(objs, pm.get(k)) if pm.get(k) is not None else d
+        pr, co, cl, bp = g(b"Predictor", 1), g(b"Columns", 1), g(b"Colors", 1), g(b"BitsPerComponent", 8)
+        return not (pr in (1, 2) or (isinstance(pr, int) and 10 <= pr <= 15)) or not (isinstance(co, int) and co >= 1) \
+            or not (isinstance(cl, int) and cl >= 1) or bp not in (1, 2, 4, 8, 16)
+    return any(isinstance(v, Stream) and bad(v.d.get(b"DecodeParms")) for v in objs.values())
 
 
 def has_ref(v):
@@ -113,7 +137,8 @@ def run(chk):
     runner = os.path.join(common.EXTRACT, "model_runner")
     wd = common.workdir("C01")
     chk.cov["rule"] = ("(input, writer configuration): generated documents with ground truth (every scalar kind, odd strings/names, shared and cyclic "
-                       "references, null entries, dangling references, plain and Flate streams) and strictly-readable repository corpus files x the "
+                       "references, null entries, dangling references, plain and Flate streams), documents whose object streams and xref stream are stored "
+                       "through every decodable filter chain (valid by construction: exit 3 counts as refusal), and strictly-readable repository corpus files x the "
                        "writer-option lattice sample; output read by the extracted strict reader and compared with the ground truth by graph isomorphism; "
                        "non-trivial = completed write whose isomorphism visited >= 5 indirect objects, distinct by (input, configuration)")
     inputs = []
@@ -169,9 +194,23 @@ def run(chk):
         open(p, "wb").write(data)
         A = {(n, gv[0]): gv[1] for n, gv in live.items()}
         inputs.append(("form%d-%s" % (i, meta["form"]), p, "generated-file-form", A, {b"Root": Ref(1)}))
+    # object streams and the cross-reference stream stored through every decodable filter and chain (Flate/LZW with every
+    # predictor, both EarlyChange values, ASCII85, ASCIIHex, RunLength): 7.5.7/7.5.8 allow any filter on them
+    import c01cont
+    cont_meta = {}
+    for name, data, A, tr, meta in c01cont.gen_inputs(rng, 4 if quick else 150):
+        p = os.path.join(wd, name + ".pdf")
+        open(p, "wb").write(data)
+        cont_meta[name] = meta
+        inputs.append((name, p, "generated-container-filters", A, tr))
     cf = [f for f in filecheck.corpus_files() if os.path.getsize(f) <= 60000]
     sel = rng.sample(cf, 40 if quick else min(len(cf), 450))
-    sr = filecheck.strict_read(sel)
+    # (fewer than 64 files would be read by one runner process: read them in four)
+    parts = [sel[i::4] for i in range(4)]
+    srp = common.par_map(filecheck.strict_read, parts, workers=4)
+    sr = [None] * len(sel)
+    for k, rs in enumerate(srp):
+        sr[k::4] = rs
     skipped = 0
     # a corpus file is an input with ground truth only if qpdf itself reads it cleanly (qpdf --check exit 0): files that
     # qpdf repairs (exit 3) legitimately change, files it rejects are not "PDF that qpdf accepts"
@@ -195,6 +234,12 @@ def run(chk):
         if inp[2] == "generated-many-nodes":
             use = [["--linearize", "--object-streams=generate"], ["--linearize"], ["--object-streams=generate"],
                    ["--linearize", "--object-streams=generate", "--compress-streams=n"]]
+        if inp[2] == "generated-container-filters":
+            # the reader side decides here, independently of the writer options: the default write, one mode that regenerates
+            # object streams, one that dissolves them, and random points of the lattice
+            use = [rng.choice([[], ["--object-streams=disable", "--decode-level=none"]])] + rng.sample(CONT_CONFIGS, 1 if quick else 6)
+            if not quick:
+                use += [[], ["--object-streams=disable", "--decode-level=none"]]
         for cfg in use:
             jobs.append((inp, cfg))
 
@@ -205,17 +250,20 @@ def run(chk):
         return rc, se, out
     res = common.par_map(runjob, range(len(jobs)))
     done = []
+    warned = {}
     for i, (rc, se, out) in enumerate(res):
         inp, cfg = jobs[i]
         if rc not in (0, 3):
             if inp[2] == "generated" or rc != 2 or not (b"password" in se or b"no pages found" in se):
                 # (a corpus file without any page is not a valid document: --linearize documents its refusal)
                 chk.violation({"kind": "property-fails-on-implementation", "why": "a readable input was refused in a content-preserving mode",
-                               "input": inp[1], "argv": ["qpdf", "--static-id"] + cfg, "exit": rc, "stderr": se.decode("latin-1")[-300:]},
+                               "input": inp[1], "input_kind": inp[2], "input_form": cont_meta.get(inp[0]), "argv": ["qpdf", "--static-id"] + cfg,
+                               "exit": rc, "stderr": se.decode("latin-1")[-300:]},
                               signature="refused:%s" % inp[0])
             continue
         if os.path.getsize(out) <= 150000:
             done.append((i, rc, out))
+            warned[i] = se
     srs = filecheck.strict_read([o for _, _, o in done])
     nontriv = set()
     qlines, qmeta = [], []
@@ -223,6 +271,10 @@ def run(chk):
         inp, cfg = jobs[i]
         name, p, kind, A, Atr = inp
         case = {"input": p, "input_kind": kind, "argv": ["qpdf", "--static-id", "--static-aes-iv"] + cfg + [p, "out.pdf"], "qpdf_exit": rc}
+        if name in cont_meta:
+            case["input_form"] = cont_meta[name]
+        if rc == 3:
+            case["stderr"] = warned[i].decode("latin-1")[:400]
         if not r["ok"]:
             chk.violation(dict(case, kind="property-fails-on-implementation", why="output cannot be read strictly (see C02): " + filecheck.ERR.get(r["code"], "?"),
                                strict_reader=r), signature="strict:%s" % r["code"])
@@ -248,6 +300,14 @@ def run(chk):
                           signature="iso:%s" % str(e)[:30])
             continue
         except RecursionError:
+            continue
+        if rc == 3 and kind.startswith("generated") and not invalid_decode_parms(A):
+            # "a valid input is never refused": the generated inputs are valid by construction (ground truth known, every container
+            # decodes with the reference decoders), so warnings + exit status 3 report a valid file as damaged
+            w = warned[i].decode("latin-1")
+            cls = "".join(ch for ch in w.split("WARNING:")[-1].split(":")[-1] if not ch.isdigit()).strip()[:40] if "WARNING:" in w else "?"
+            chk.violation(dict(case, kind="property-fails-on-implementation", why="a valid input was reported as damaged (warnings, exit status 3) "
+                               "although the output holds the same document"), signature="warned:%s" % cls)
             continue
         if len(a2b) >= 5:
             nontriv.add((name, filecheck.config_name(cfg)))
@@ -318,6 +378,11 @@ def run(chk):
     nwf = sum(1 for mo in mres if mo.endswith(" wf"))
     chk.cov["parts"]["byte-exact-writer-model"]["documents_satisfying_wf_doc_b"] = nwf
     chk.cov["parts"]["byte-exact-writer-model"]["documents_not_wf_doc_b"] = len(mres) - nwf
+
+
+    # ---- container streams: extracted model of getStreamData / the readers' decode level vs the real library (in process)
+    import c01contmodel
+    c01contmodel.run_part(chk, rng, quick, runner, wd)
 
 
 def replay(chk, rep):
